@@ -149,6 +149,97 @@ theorem C04_symbolic_sound (hsig : SigInjective key H)
   · rintro ⟨hl, hi, ha, hs⟩
     exact ⟨hl, k₀, by rw [hi, ha]; exact hk₀, by rw [hC, hs]⟩
 
+/-! ### The same gate with the code's two-level key maps and its error values
+
+`m.keysets[proof.Id]` then `keyset.Keys[proof.Amount]`; the error returned at each exit of the loop body. (The NUT-10
+spending-condition block sits between the key lookup and the parsing of `C`; it is not part of this gate, so the codes
+below are those of a proof whose secret is not a P2PK/HTLC secret or whose spending condition holds.) -/
+
+/-- The exits of the per-proof loop body of `verifyProofs`. -/
+inductive GateErr
+  | secretTooLong     -- cashu.SecretTooLongErr  (10004)
+  | unknownKeyset     -- cashu.UnknownKeysetErr  (12001)
+  | invalidProof      -- cashu.InvalidProofErr   (10003): amount is not a key of the keyset, OR crypto.Verify is false
+  | badC              -- BuildCashuError("invalid C: …" / ParsePubKey error, StandardErrCode 10000)
+  deriving DecidableEq, Repr
+
+/-- `key` as used by `gate`, from the two-level maps of the code. -/
+def keyOf (keysets : KsId → Option (Amount → Option (ZMod n))) : KsId × Amount → Option (ZMod n) :=
+  fun x => (keysets x.1).bind (fun ks => ks x.2)
+
+/-- The loop body with its error values, in the order of the code; `none` = this proof passes. -/
+def gateCode [DecidableEq G] (keysets : KsId → Option (Amount → Option (ZMod n)))
+    (p : AProof KsId Amount Secret G) : Option GateErr :=
+  if slen p.secret > Gen.maxSecretLength then some .secretTooLong else
+  match keysets p.id with
+  | none => some .unknownKeyset
+  | some ks =>
+    match ks p.amount with
+    | none => some .invalidProof
+    | some k =>
+      match p.C with
+      | none => some .badC
+      | some c => if k • H p.secret = c then none else some .invalidProof
+
+theorem gateCode_none_iff [DecidableEq G] (keysets : KsId → Option (Amount → Option (ZMod n)))
+    (p : AProof KsId Amount Secret G) :
+    gateCode slen H keysets p = none ↔ gate slen (keyOf keysets) H p := by
+  unfold gateCode gate keyOf verify
+  by_cases hl : slen p.secret > Gen.maxSecretLength
+  · simp [hl]
+  · cases hks : keysets p.id with
+    | none => simp [hl]
+    | some ks =>
+      cases hk : ks p.amount with
+      | none => simp [hl, hk]
+      | some k =>
+        cases hc : p.C with
+        | none => simp [hl, hk]
+        | some c => by_cases hv : k • H p.secret = c <;> simp [hl, hk, hv]
+
+/-- Which error each rejection produces. -/
+theorem gateCode_cases [DecidableEq G] (keysets : KsId → Option (Amount → Option (ZMod n)))
+    (p : AProof KsId Amount Secret G) :
+    (slen p.secret > 512 → gateCode slen H keysets p = some .secretTooLong) ∧
+    (slen p.secret ≤ 512 → keysets p.id = none → gateCode slen H keysets p = some .unknownKeyset) ∧
+    (slen p.secret ≤ 512 → ∀ ks, keysets p.id = some ks → ks p.amount = none →
+      gateCode slen H keysets p = some .invalidProof) ∧
+    (slen p.secret ≤ 512 → ∀ ks k, keysets p.id = some ks → ks p.amount = some k → p.C = none →
+      gateCode slen H keysets p = some .badC) ∧
+    (slen p.secret ≤ 512 → ∀ ks k c, keysets p.id = some ks → ks p.amount = some k → p.C = some c →
+      k • H p.secret ≠ c → gateCode slen H keysets p = some .invalidProof) := by
+  unfold gateCode
+  rw [show Gen.maxSecretLength = 512 from rfl]
+  refine ⟨fun h => by simp [h], fun h hk => ?_, fun h ks hks hk => ?_, fun h ks k hks hk hc => ?_,
+    fun h ks k c hks hk hc hv => ?_⟩
+  · simp [Nat.not_lt.mpr h, hk]
+  · simp [Nat.not_lt.mpr h, hks, hk]
+  · simp [Nat.not_lt.mpr h, hks, hk, hc]
+  · simp [Nat.not_lt.mpr h, hks, hk, hc, hv]
+
+/-- Name and code of the `cashu.Error` each exit returns (for `badC`: the code of `cashu.StandardErrCode`; its message is
+built at run time). -/
+def GateErr.wire : GateErr → String × Nat
+  | .secretTooLong => ("SecretTooLongErr", 10004)
+  | .unknownKeyset => ("UnknownKeysetErr", 12001)
+  | .invalidProof => ("InvalidProofErr", 10003)
+  | .badC => ("StandardErrCode", 10000)
+
+/-- Tie to the regenerated error table of `/repo/cashu/cashu.go` and to the extracted call skeleton of `verifyProofs`
+(`crypto.Verify` is the last call of the loop body, after the NUT-11/NUT-14 verifiers): breaks when the code changes. -/
+theorem gate_tie :
+    (∀ e : GateErr, e ≠ .badC → ∃ msg, (e.wire.1, msg, e.wire.2) ∈ Gen.errTable) ∧
+    (GateErr.badC.wire ∈ Gen.errCodes) ∧
+    Gen.maxSecretLength = 512 ∧
+    Gen.skel_verifyProofs = ["db.GetPendingProofs", "db.GetProofsUsed", "cashu.CheckDuplicateProofs", "for{", "if{", "if{",
+      "nut11.VerifyP2PKLockedProof", "}else{", "if{", "nut14.VerifyHTLCProof", "}", "}", "}", "crypto.Verify", "}"] := by
+  refine ⟨fun e he => ?_, by decide, rfl, rfl⟩
+  cases e
+  · exact ⟨"secret too long", by decide⟩
+  · exact ⟨"unknown keyset", by decide⟩
+  · exact ⟨"invalid proof", by decide⟩
+  · exact absurd rfl he
+
 end Algebraic
 
 section AlgebraicPrime
@@ -253,6 +344,15 @@ example : gate slen7 key7 H7
 example : ¬ gate slen7 key7 H7 { amount := 1, id := false, secret := 5, C := some 5 } :=
   C04_secret_too_long slen7 key7 H7 _ (by decide)
 example : Genuine key7 H7 { amount := 1, id := false, secret := 5, C := some 5 } := ⟨2, rfl, by decide⟩
+
+-- the error values, on the two-level maps that induce `key7`
+private def keysets7 : Bool → Option (Fin 4 → Option (ZMod 7)) := fun i => some (fun a => key7 (i, a))
+example : gateCode slen7 H7 keysets7 p7 = none := by decide
+example : gateCode slen7 H7 keysets7 { p7 with amount := 3 } = some .invalidProof := by decide
+example : gateCode slen7 H7 keysets7 { p7 with amount := 2 } = some .invalidProof := by decide
+example : gateCode slen7 H7 keysets7 { p7 with secret := 5 } = some .secretTooLong := by decide
+example : gateCode slen7 H7 keysets7 { p7 with C := none } = some .badC := by decide
+example : gateCode (n := 7) slen7 H7 (fun _ => none) p7 = some .unknownKeyset := by decide
 
 /-- Separate injectivity of `key` and `H` does NOT make `(key, secret) ↦ key • H secret` injective: the genuine
 `p7` (key 2, `H = 3`, `C = 6`) is ALSO accepted after changing amount AND secret together (key 3, `H = 2`). A
